@@ -36,6 +36,8 @@ PROPS = [
  ("fix: a patch request without publishTime", ["C11"]),
  ("fix: status-code patterns with a non-zero availability start time", ["C14"]),
  ("fix: an ingest session for a SegmentTimeline URL with generated subtitles crashed", ["C08", "C16"]),
+ ("fix: in a SegmentTimeline MPD with a thumbnail adaptation set publishTime was reset", ["C05"]),
+ ("fix: the MPD patch for two MPDs whose element lists differ much in length", ["C08", "C11"]),
  ("fix: MPD patch: adaptation sets other than video/audio", ["C11"]),
  ("fix: EndTime read ResetTime without the limiter mutex", ["C20"]),
  ("fix: receiver: the stream table was read and written by concurrent upload handlers", ["C19"]),
